@@ -159,13 +159,19 @@ func (w *c13World) Start(x *h.Exec) {
 	// the envelope is not part of the exploration
 	var pre strings.Builder
 	pre.WriteString("LHLO c.example\r\nMAIL FROM:<ok@a.example>\r\n")
+	// lists that begin with recipient b are preceded by a recipient the backend REFUSES at RCPT time (550): it is not
+	// an accepted recipient and gets no status
+	w.pre = 3 + len(c.Rcpts)
+	if c.Rcpts[0] == 'b' {
+		pre.WriteString("RCPT TO:<rejfirst@x.example>\r\n")
+		w.pre++
+	}
 	for i := 0; i < len(c.Rcpts); i++ {
 		fmt.Fprintf(&pre, "RCPT TO:<%s>\r\n", c13Addr(c.Rcpts[i]))
 	}
 	w.client.Write([]byte(pre.String()))
 	h.Wait()
 	w.wire = append(w.wire, w.client.In.Drain()...)
-	w.pre = 3 + len(c.Rcpts)
 	msg := c13Msg
 	switch c.Transfer {
 	case "data":
@@ -201,7 +207,7 @@ func (w *c13World) Finish(x *h.Exec) *h.Finding {
 	// nothing of the first transaction's status bookkeeping may survive
 	var second []byte
 	if w.c.Ret != "panic" {
-		env := "MAIL FROM:<ok@a2.example>\r\n" + fmt.Sprintf("RCPT TO:<%s>\r\nRCPT TO:<%s>\r\nRCPT TO:<%s>\r\n", c13Addr('b'), c13Addr('a'), c13Addr('a'))
+		env := "MAIL FROM:<ok@a2.example>\r\n" + fmt.Sprintf("RCPT TO:<%s>\r\nRCPT TO:<rejmiddle@x.example>\r\nRCPT TO:<%s>\r\nRCPT TO:<%s>\r\n", c13Addr('b'), c13Addr('a'), c13Addr('a'))
 		// always chunked: BDAT keeps per-transaction state on the connection between commands
 		w.client.Write([]byte(env + "BDAT 8 LAST\r\nsecond\r\n"))
 		h.Wait()
@@ -411,7 +417,7 @@ func C13(tier string) int {
 			}
 		}
 	}
-	run.Rule = fmt.Sprintf("scenarios: recipient lists of 1..%d entries over {a,b} (%d lists, duplicates included) x every sequence of status calls with at most one call too many / for a recipient not in the list (the k-th call carries its own code and text 'status-k', every third is plain success) x every split of the calls into before/after the message is read x return {nil, error, panic, error-without-reading} x {DATA, BDAT one chunk, BDAT two chunks} + a backend without per-recipient support. For every scenario the schedule explorer (testing/synctest) enumerates the orders of: backend steps (enter, each SetStatus, each Read, return), the handler's reply writes, and the client's segments - ALL interleavings for lists of <=%d recipients, deviation bound %d above. states = scenarios; transitions = scheduling decisions; traces validated = executions on the real server. Oracle: exactly one reply per accepted RCPT, in order, '<rcpt>' prefix, k-th status of an address for its k-th occurrence, otherwise the return value (421 after a panic); never a deadlock (runtime-detected) and a following NOOP is in step; contract-breaking scripts only need to stay deadlock-free and well-formed.", maxR, len(lists), fullUpTo, bound)
+	run.Rule = fmt.Sprintf("scenarios: recipient lists of 1..%d entries over {a,b} (%d lists, duplicates included) x every sequence of status calls with at most one call too many / for a recipient not in the list (the k-th call carries its own code and text 'status-k', every third is plain success) x every split of the calls into before/after the message is read x return {nil, error, panic, error-without-reading} x {DATA, BDAT one chunk, BDAT two chunks} + a backend without per-recipient support. For every scenario the schedule explorer (testing/synctest) enumerates the orders of: backend steps (enter, each SetStatus, each Read, return), the handler's reply writes, and the client's segments - ALL interleavings for lists of <=%d recipients, deviation bound %d above. states = scenarios; transitions = scheduling decisions; traces validated = executions on the real server. Lists beginning with b are preceded by a recipient the backend refuses at RCPT time, and every scenario is followed by a second (chunked) transaction b, <refused>, a, a. Oracle: exactly one reply per accepted RCPT, in order, '<rcpt>' prefix, k-th status of an address for its k-th occurrence, otherwise the return value (421 after a panic); never a deadlock (runtime-detected) and a following NOOP is in step; contract-breaking scripts only need to stay deadlock-free and well-formed.", maxR, len(lists), fullUpTo, bound)
 	run.Assumptions = []string{"SetStatus after LMTPData has returned is not generated (the interface forbids it)", "a panicking plain backend may be answered by one 421 and a closed connection"}
 	h.ParallelFor(len(cases), func(i int) {
 		if run.Expired() {
@@ -466,10 +472,13 @@ func c13SecondTransaction(desc string, c C13Case, wire []byte) *h.Finding {
 	if err != nil {
 		return h.F("c13-second-bad-wire", "%s: second transaction: %v (%q)", desc, err, wire)
 	}
-	// MAIL, 3x RCPT, [354], 3 final replies
-	want := 4 + 3
+	// MAIL, 4x RCPT (the second one refused by the backend), 3 final replies
+	want := 5 + 3
 	if len(rs) != want {
-		return h.F("c13-second-reply-count", "%s: the second transaction (recipients b,a,a) got %d replies, want %d: %q", desc, len(rs), want, wire)
+		return h.F("c13-second-reply-count", "%s: the second transaction (recipients b, one refused at RCPT, a, a) got %d replies, want %d (one final reply per ACCEPTED recipient): %q", desc, len(rs), want, wire)
+	}
+	if rs[2].Code != 550 {
+		return h.F("c13-second-refused-rcpt", "%s: second transaction: the recipient the backend refuses was answered %s", desc, rs[2].String())
 	}
 	final := rs[len(rs)-3:]
 	for i, ch := range []byte("baa") {
